@@ -5,7 +5,7 @@ from ..acceptors_r2 import acc_C15
 from ..explore_r import Scenario, S, mkcfg, bl, sl, bm, sm
 
 WIT = ["clipped_from_above", "clipped_from_below", "on_band_edge", "inside_band", "clipped_then_rounded",
-       "non_target_order_accepted", "market_order_on_target", "fills_checked_against_band"]
+       "non_target_order_accepted", "market_order_on_target", "fills_checked_against_band", "two_rules_in_one_run"]
 RULE = ("grid of rule placements (target sets out of three markets, rate, tick size, session, enabled) x all executions within "
         "the deviation bound; agent menus hold limit prices far outside, one tick outside, exactly on, one tick inside the "
         "band edges and off-grid, plus market orders, on target and non-target markets; every accepted order is compared with "
@@ -50,6 +50,18 @@ def scenarios(tier):
                             sessions = [S(0, 1, True, False, maxNormalOrders=2), S(1, 3, True, True, maxNormalOrders=2, events=["PL"])]
                         sc[name] = Scenario(name, mkcfg(sessions, markets=markets, agents=ags, events=ev),
                                             meta=dict(limit_rule=dict(targets=targets, r=r, enabled=enabled)))
+    # two rules in one run: different target sets and different rates
+    for (ta, ra), (tb, rb) in (((["M0"], 0.125), (["M1"], 0.25)), ((["M1"], 0.25), (["M0"], 0.125)), ((["M0", "M1"], 0.25), (["M2"], 0.125))):
+        name = "two_rules:%s@%s+%s@%s" % ("+".join(ta), ra, "+".join(tb), rb)
+        menu = menus(0.25, 1.0)
+        markets = [dict(name="M%d" % i, tick=1.0) for i in range(3)]
+        ags = [dict(name="A0", menu=menu, program=[1, 14, 5, 27], markets=["M0", "M1", "M2"]),
+               dict(name="A1", menu=menu, program=[2, 15, 6, 28], markets=["M0", "M1", "M2"])]
+        ev = {"PA": {"class": "PriceLimitRule", "targetMarkets": ta, "triggerChangeRate": ra},
+              "PB": {"class": "PriceLimitRule", "targetMarkets": tb, "triggerChangeRate": rb}}
+        sessions = [S(0, 2, True, False, maxNormalOrders=2, events=["PA", "PB"]), S(1, 2, True, True, maxNormalOrders=2)]
+        sc[name] = Scenario(name, mkcfg(sessions, markets=markets, agents=ags, events=ev),
+                            meta=dict(limit_rules=[dict(targets=ta, r=ra, enabled=True), dict(targets=tb, r=rb, enabled=True)]))
     return sc
 
 
